@@ -315,21 +315,31 @@ def corpus(tier, features="full"):
     progs = quick_programs() if (tier == "quick" or features != "full") else thorough_programs()
     cp = e2.Corpus("reply-" + tier if features == "full" else "replymin-" + tier, features=features)
     info = {}
+    rejected = {}
     obs = {o["id"]: o for o in core.e1_run([model.e1_contract_record(pid, contract_of(rms), want="items") for pid, rms, tags in progs], "reply-" + tier + features)}
     for pid, rms, tags in progs:
         valid, why, names = table_model(rms)
         if not valid:
             raise core.MachineryError("reply corpus program %s is invalid by the model: %s" % (pid, why))
         c = contract_of(rms)
-        _, items = model.sv_items(obs[pid])
+        o = obs[pid]
+        if o.get("dirty") or o.get("panic") or o.get("has_compile_error"):
+            rejected[pid] = [{"code": None, "message": "rejected by the macro: %s" % (o.get("panic") or (o.get("compile_errors") or ["diagnostic emitted"])[0]), "lines": [], "rendered": ""}]
+            info[pid] = (c, rms, tags, names)
+            continue
+        _, items = model.sv_items(o)
         cnames = [it["name"] for it in items if it.get("k") == "const" and it["name"].endswith("_REPLY_ID")]
         if len(cnames) != len(names):
-            raise core.MachineryError("reply corpus program %s: %d id constants for %d names" % (pid, len(cnames), len(names)))
+            rejected[pid] = [{"code": None, "message": "the expansion declares %d reply id constants (%s) for %d handler names (%s)" % (len(cnames), cnames, len(names), list(names)),
+                              "lines": [], "rendered": ""}]
+            info[pid] = (c, rms, tags, names)
+            continue
         consts = dict(zip(names.keys(), cnames))
         cp.add(pid, e2.render_program(pid, c, glue=glue_for(c, rms, names, consts)))
         info[pid] = (c, rms, tags, names)
     cp.write()
     cp.build()
+    cp.failed.update(rejected)
     _CACHE[key] = (cp, info)
     return _CACHE[key]
 
